@@ -217,15 +217,12 @@ def compatible_at(table, cs, ss, cred, v):
         sch = sig_schemes(cs, v) & sig_schemes(ss, v) & cred_schemes(cred, v)
     elif kt in ("rsa", "ecdsa", "dsa"):
         # below TLS 1.2 the ServerKeyExchange signature is fixed (MD5+SHA1 for RSA, SHA-1 otherwise,
-        # RFC 4346 7.4.3) and not negotiated.  The hash / scheme lists of the settings are documented for
-        # TLS 1.2; a client that also enables TLS 1.2+ still sends them.  If those lists have nothing in
-        # common for this key, the pair does not "share a signature scheme" in terms of its settings and
-        # whether the lists are applied below TLS 1.2 is left to the implementation: not judged.
-        if cs["maxVersion"] >= V33 and not (sig_schemes(cs, V33) & sig_schemes(ss, V33) & cred_schemes(cred, V33)):
-            if [sid for sid in both if table[sid]["kex"] in cred_kex(cred) and table[sid]["kex"] != "rsa"]:
-                return None, "tls12-signature-lists-disjoint-below-tls12"
+        # RFC 4346 7.4.3) and not negotiated: the signature hash / scheme lists of the settings (documented
+        # for TLS 1.2, RFC 5246 7.4.1.4.1: "not meaningful for TLS versions prior to 1.2") play no role,
+        # even when a client that also enables TLS 1.2+ sends them
         sch = set(["fixed"])
     else:
+        # EdDSA and RSA-PSS keys have no signature format below TLS 1.2: such a key serves no suite there
         sch = set()
     verdicts = []
     for sid in sorted(both):
@@ -652,6 +649,20 @@ def systematic_pairs():
                 yield ("sys:one-sig-eddsa", rng_spec(V31, V34), rng_spec(v, v, more_sig_schemes=ms), cred, None)
     for h in HASHES:
         yield ("sys:one-sig-dsa", rng_spec(V33, V33, dsaSigHashes=[h]), rng_spec(V31, V34), "dsa", None)
+    # below TLS 1.2 the signature is fixed: disjoint TLS 1.2 signature lists must not matter; EdDSA and
+    # RSA-PSS keys serve nothing there
+    for hi in (V31, V32):
+        for cmax in (V33, V34):
+            yield ("sys:sig-lists-below-tls12", rng_spec(V31, cmax, rsaSigHashes=["sha384", "sha256"]),
+                   rng_spec(V31, hi, rsaSigHashes=["sha1", "sha512"]), "rsa", None)
+            yield ("sys:sig-lists-below-tls12", rng_spec(V31, cmax, rsaSchemes=["pss"]),
+                   rng_spec(V31, hi, rsaSchemes=["pkcs1"]), "rsa", None)
+            yield ("sys:sig-lists-below-tls12", rng_spec(V31, cmax, ecdsaSigHashes=["sha384", "sha512"]),
+                   rng_spec(V31, hi, ecdsaSigHashes=["sha224", "sha1", "sha256"]), "ecdsa", None)
+            yield ("sys:sig-lists-below-tls12", rng_spec(V31, cmax, dsaSigHashes=["sha256"]),
+                   rng_spec(V31, hi, dsaSigHashes=["sha1"]), "dsa", None)
+            for cred in ("ed25519", "ed448", "rsapss"):
+                yield ("sys:key-without-pre-tls12-signature", rng_spec(V31, cmax), rng_spec(V31, hi), cred, None)
     # EMS / EtM / record size limit / ALPN on otherwise default ends
     for cu, cr in ((True, True), (True, False), (False, False)):
         for su, sr in ((True, True), (True, False), (False, False)):
